@@ -3,6 +3,7 @@
 # path (a pre-screen that leaves /repo alone; the confirmation is tools/seedcheck.sh, which applies the patch to /repo)
 wt="$1"; shift
 cd "$(dirname "$0")/.." || exit 2
+mkdir -p .work/evidence-changed-tree; export VERIF_EVIDENCE_DIR=$PWD/.work/evidence-changed-tree
 for c in "$@"; do
   r=$(PYTHONPATH=$wt/src ./check "$c" --tier ${TIER:-quick} 2>&1 | grep -E "VIOLATION|MACHINERY|: ok|FAIL" | tail -2 | cut -c1-220 | tr '\n' ' ')
   echo "  $c -> $r"
